@@ -92,10 +92,10 @@ pub fn run(args: &[String]) -> i32 {
 
 fn one_run(rng: &mut StdRng, k: usize) -> Result<Vec<J>, String> {
     // the combination is enumerated (kind x policy x watchdog action x runner), the rest is random
-    let kind = ["error", "watchdog", "driver"][k % 3];
-    let policy = ["halt", "safe_halt", "restart"][(k / 3) % 3];
-    let wd = ["halt", "safe_halt", "restart"][(k / 9) % 3];
-    let shared_runner = (k / 27) % 2 == 0;
+    let kind = ["error", "watchdog", "driver", "simulation"][k % 4];
+    let policy = ["halt", "safe_halt", "restart"][(k / 4) % 3];
+    let wd = ["halt", "safe_halt", "restart"][(k / 12) % 3];
+    let shared_runner = (k / 36) % 2 == 0;
     let ndrv = rng.gen_range(1..=3usize);
     let failing_drv = rng.gen_range(0..ndrv);
     let mut safe: Vec<(usize, i64)> = Vec::new();
@@ -125,7 +125,15 @@ fn one_run(rng: &mut StdRng, k: usize) -> Result<Vec<J>, String> {
     }
     rt.set_io_safe_state(st);
     let clock = ManualClock::new();
-    let runner = ResourceRunner::new(rt, clock.clone(), Duration::from_millis(1));
+    let mut runner = ResourceRunner::new(rt, clock.clone(), Duration::from_millis(1));
+    // a fault disturbance of the simulation layer, due after a few cycles (the loop applies it before a cycle)
+    let sim_at = rng.gen_range(2..7i64);
+    if kind == "simulation" {
+        use trust_runtime::simulation::{SimulationConfig, SimulationController, SimulationDisturbance, SimulationDisturbanceKind};
+        let cfg = SimulationConfig { enabled: true, seed: 1, time_scale: 1, couplings: vec![],
+            disturbances: vec![SimulationDisturbance { at: Duration::from_millis(sim_at), kind: SimulationDisturbanceKind::Fault { message: "zq-injected".into() } }] };
+        runner = runner.with_simulation(SimulationController::new(cfg));
+    }
     let mut handle = if shared_runner { runner.spawn_with_shared("zq", shared).map_err(|e| e.to_string())? } else { runner.spawn("zq").map_err(|e| e.to_string())? };
     let ctl = handle.control();
     let push = |e: J| log.lock().unwrap().push(e);
@@ -134,8 +142,8 @@ fn one_run(rng: &mut StdRng, k: usize) -> Result<Vec<J>, String> {
         clock.advance(Duration::from_millis(1));
         std::thread::sleep(std::time::Duration::from_micros(200));
     };
-    // a few normal cycles first
-    let warm = rng.gen_range(1..5);
+    // a few normal cycles first (the simulation fault comes by itself, at its time)
+    let warm = if kind == "simulation" { 1 } else { rng.gen_range(1..5) };
     let t0 = std::time::Instant::now();
     while writes() < warm * ndrv && t0.elapsed().as_secs() < 20 && ctl.state() != ResourceState::Faulted {
         tick();
@@ -145,6 +153,7 @@ fn one_run(rng: &mut StdRng, k: usize) -> Result<Vec<J>, String> {
     match kind {
         "error" => { up.insert("boom".into(), Value::Bool(true)); }
         "watchdog" => { up.insert("slow".into(), Value::Bool(true)); }
+        "simulation" => {}
         _ => fail.store(true, Ordering::SeqCst),
     }
     push(json!({"a": "Inject"}));
